@@ -393,16 +393,88 @@ def _r2(ctx):
     has_e = any(frozenset(d) == frozenset({("both", "is_electron")}) for d in disj)
     ctx.check(has_e, "R3", "Species.__eq__:electron", (SPECIES, fn.lineno), "all electron spellings compare equal")
     ie = pkg.method("Species", "is_electron")
+    ctx.saw(SPECIES, "Species.is_electron")
+    # constant folding of the predicate for the four spellings (no execution: a whitelisted expression evaluator over the AST)
+    res = {nm: _fold_name_predicate(ie, nm) for nm in ("e", "E", "e-", "E-")}
     src = ast.unparse(ie)
-    lits = set()
-    for n in ast.walk(ie):
+    if any(v is None for v in res.values()):
+        ctx.unrec("R3", "Species.is_electron", (SPECIES, ie.lineno), "is_electron is not a foldable predicate of self.name: " + src[-100:])
+    else:
+        ctx.check(all(res.values()), "R3", "Species.is_electron", (SPECIES, ie.lineno),
+                  "is_electron recognises e, E, e-, E-" if all(res.values()) else
+                  "is_electron misses the spelling(s) " + ", ".join(k for k, v in res.items() if not v) + ": those electrons get their own ODE slot",
+                  found=src[-80:])
+
+
+class _NoFold(Exception):
+    pass
+
+
+def _fold_name_predicate(fn, name):
+    """Value of a property `fn(self)` that depends on self.name only, for self.name == name: straight-line assignments and one
+    return, expressions over string literals, self.name, str methods without side effects, comparisons and boolean operators.
+    None when anything else occurs."""
+    STR_METHODS = {"upper", "lower", "casefold", "strip", "lstrip", "rstrip", "startswith", "endswith", "replace", "rstrip"}
+    selfname = fn.args.args[0].arg if fn.args.args else "self"
+    env = {}
+
+    def ev(n):
+        if isinstance(n, ast.Constant) and isinstance(n.value, (str, bool, int)):
+            return n.value
+        if isinstance(n, ast.Attribute) and isinstance(n.value, ast.Name) and n.value.id == selfname and n.attr == "name":
+            return name
+        if isinstance(n, ast.Name) and n.id in env:
+            return env[n.id]
         if isinstance(n, (ast.List, ast.Tuple, ast.Set)):
-            try:
-                lits |= set(ast.literal_eval(n))
-            except Exception:
-                pass
-    ctx.check({"E", "E-"} <= lits and ".upper()" in src, "R3", "Species.is_electron", (SPECIES, ie.lineno),
-              "is_electron recognises e, E, e-, E- (upper-cased name in ['E','E-'])", found=src[-80:])
+            return [ev(x) for x in n.elts]
+        if isinstance(n, ast.Call) and isinstance(n.func, ast.Attribute) and n.func.attr in STR_METHODS and not n.keywords:
+            recv = ev(n.func.value)
+            if isinstance(recv, str):
+                return getattr(recv, n.func.attr)(*[ev(a) for a in n.args])
+        if isinstance(n, ast.Call) and isinstance(n.func, ast.Name) and n.func.id in ("bool", "len", "str") and len(n.args) == 1 and not n.keywords:
+            return {"bool": bool, "len": len, "str": str}[n.func.id](ev(n.args[0]))
+        if isinstance(n, ast.Compare):
+            left = ev(n.left)
+            for op, c in zip(n.ops, n.comparators):
+                right = ev(c)
+                r = {ast.Eq: lambda: left == right, ast.NotEq: lambda: left != right, ast.In: lambda: left in right,
+                     ast.NotIn: lambda: left not in right}.get(type(op))
+                if r is None:
+                    raise _NoFold()
+                if not r():
+                    return False
+                left = right
+            return True
+        if isinstance(n, ast.BoolOp):
+            vals = [ev(x) for x in n.values]
+            return all(vals) if isinstance(n.op, ast.And) else any(vals)
+        if isinstance(n, ast.UnaryOp) and isinstance(n.op, ast.Not):
+            return not ev(n.operand)
+        if isinstance(n, ast.IfExp):
+            return ev(n.body) if ev(n.test) else ev(n.orelse)
+        if isinstance(n, ast.Subscript) and isinstance(n.slice, ast.Constant) and isinstance(n.slice.value, int):
+            return ev(n.value)[n.slice.value]
+        raise _NoFold()
+
+    def run(stmts):
+        for st in stmts:
+            if isinstance(st, ast.Expr) and isinstance(st.value, ast.Constant):
+                continue
+            if isinstance(st, ast.Assign) and len(st.targets) == 1 and isinstance(st.targets[0], ast.Name):
+                env[st.targets[0].id] = ev(st.value)
+            elif isinstance(st, ast.Return) and st.value is not None:
+                return bool(ev(st.value))
+            elif isinstance(st, ast.If):
+                r = run(st.body if ev(st.test) else st.orelse)
+                if r is not None:
+                    return r
+            else:
+                raise _NoFold()
+        return None
+    try:
+        return run(fn.body)
+    except (_NoFold, Exception):
+        return None
 
 
 MUTANTS = [
@@ -416,6 +488,8 @@ MUTANTS = [
     {"name": "electron-hash-name", "file": SPECIES, "old": '            hash("Electron")\n            if self.is_electron', "new": '            hash(self.name)\n            if self.is_electron', "rules": ["R3"]},
 ]
 MUTANTS += [
+    {"name": "electron-case-sensitive", "file": SPECIES, "old": 'return self.name.upper() in ["E", "E-"]', "new": 'return self.name in ["E", "E-"]', "rules": ["R3"]},
+    {"name": "ice-eq-tuple-without-charge", "file": SPECIES, "old": "                    and self.surface_group == o.surface_group\n                    and self.charge == o.charge\n                    and self.basename == o.basename\n", "new": "                    and (self.surface_group, self.basename) == (o.surface_group, o.basename)\n", "rules": ["R2"]},
     {"name": "matches-collected-in-dict", "file": SPECIES, "old": '        for s, e, n in zip(starts, ends, matchnames):\n            # if there is replacement, save the element name with the new value\n            n = self._replacement.get(n, n)\n            if e != s:\n                substring = parsename[e:s]\n                if substring.isdigit():\n                    self._add_element_count(n, int(parsename[e:s]))\n                else:\n                    raise RuntimeError(\n                        f\'Unrecongnized name: "{substring}" in "{self.name}"\'\n                    )\n            else:\n                if n in symbols:\n                    self._add_element_count(n, 0)\n                elif n:\n                    self._add_element_count(n, 1)\n', "new": '        # Go through the name once: check everything between two matches is a\n        # number before anything is saved in the instance, and build the name\n        # with the replaced element names at the same time\n        newname = ""\n        components = {}\n        for s, e, n in zip(starts, ends, matchnames):\n            # if there is replacement, save the element name with the new value\n            n = self._replacement.get(n, n)\n            substring = parsename[e:s]\n            if substring and not substring.isdigit():\n                raise RuntimeError(\n                    f\'Unrecongnized name: "{substring}" in "{self.name}"\'\n                )\n            newname = f"{newname}{n}{substring}"\n            if n:\n                components[n] = int(substring) if substring else int(n not in symbols)\n\n        for n, count in components.items():\n            self._add_element_count(n, count)\n', "rules": ["R6"]},
     {"name": "eq-guard-clauses-ice-without-charge", "file": SPECIES, "old": '        if isinstance(o, Species):\n            return (\n                (self.is_electron and o.is_electron)\n                or (\n                    self.is_grain\n                    and o.is_grain\n                    and self.grain_group == o.grain_group\n                    and self.charge == o.charge\n                )\n                or (\n                    self.is_surface\n                    and o.is_surface\n                    and self.surface_group == o.surface_group\n                    and self.charge == o.charge\n                    and self.basename == o.basename\n                )\n                or self.name == o.name\n            )\n            # return (self.is_electron and o.is_electron) or self.name == o.name\n        return NotImplemented\n', "new": '        if not isinstance(o, Species):\n            return NotImplemented\n        if self.is_electron and o.is_electron:\n            return True\n        if self.is_grain and o.is_grain:\n            if self.grain_group == o.grain_group and self.charge == o.charge:\n                return True\n        if self.is_surface and o.is_surface:\n            same_group = self.surface_group == o.surface_group\n            if same_group and self.basename == o.basename:\n                return True\n        return self.name == o.name\n', "rules": ["R2"]},
     {"name": "hash-guard-clause-electron-by-name", "file": SPECIES, "old": '        return (\n            hash("Electron")\n            if self.is_electron\n            else hash(\n                f"{self.basename}"\n                f"{self.charge}"\n                f"{self.is_grain}"\n                f"{self.grain_group}"\n                f"{self.is_surface}"\n                f"{self.surface_group}"\n            )\n        )\n\n', "new": '        if self.is_electron:\n            return hash(self.name)\n        identity = (self.basename, self.charge, self.is_grain, self.grain_group, self.is_surface, self.surface_group)\n        return hash("".join(str(part) for part in identity))\n\n', "rules": ["R3"]},
@@ -430,6 +504,8 @@ MUTANTS += [
     {"name": "alias-single-M", "file": SPECIES, "old": 'else "M" * abs(self.charge),', "new": 'else "M",', "rules": ["R4"]},
 ]
 BENIGN = [
+    {"name": "electron-lowercase-tuple", "file": SPECIES, "old": 'return self.name.upper() in ["E", "E-"]', "new": 'return self.name.lower() in ("e", "e-")'},
+    {"name": "ice-eq-tuple-compare", "file": SPECIES, "old": "                    and self.surface_group == o.surface_group\n                    and self.charge == o.charge\n                    and self.basename == o.basename\n", "new": "                    and (self.surface_group, self.charge, self.basename) == (o.surface_group, o.charge, o.basename)\n"},
     # (not output-identical for repeated surface/grain symbols, but composition-preserving: the property holds, the check must be silent)
     {"name": "matches-collected-in-adding-dict", "file": SPECIES, "old": '        for s, e, n in zip(starts, ends, matchnames):\n            # if there is replacement, save the element name with the new value\n            n = self._replacement.get(n, n)\n            if e != s:\n                substring = parsename[e:s]\n                if substring.isdigit():\n                    self._add_element_count(n, int(parsename[e:s]))\n                else:\n                    raise RuntimeError(\n                        f\'Unrecongnized name: "{substring}" in "{self.name}"\'\n                    )\n            else:\n                if n in symbols:\n                    self._add_element_count(n, 0)\n                elif n:\n                    self._add_element_count(n, 1)\n', "new": '        # Go through the name once: check everything between two matches is a\n        # number before anything is saved in the instance, and build the name\n        # with the replaced element names at the same time\n        newname = ""\n        components = {}\n        for s, e, n in zip(starts, ends, matchnames):\n            # if there is replacement, save the element name with the new value\n            n = self._replacement.get(n, n)\n            substring = parsename[e:s]\n            if substring and not substring.isdigit():\n                raise RuntimeError(\n                    f\'Unrecongnized name: "{substring}" in "{self.name}"\'\n                )\n            newname = f"{newname}{n}{substring}"\n            if n:\n                components[n] = components.get(n, 0) + (int(substring) if substring else int(n not in symbols))\n\n        for n, count in components.items():\n            self._add_element_count(n, count)\n'},
     {"name": "eq-guard-clauses", "file": SPECIES, "old": '        if isinstance(o, Species):\n            return (\n                (self.is_electron and o.is_electron)\n                or (\n                    self.is_grain\n                    and o.is_grain\n                    and self.grain_group == o.grain_group\n                    and self.charge == o.charge\n                )\n                or (\n                    self.is_surface\n                    and o.is_surface\n                    and self.surface_group == o.surface_group\n                    and self.charge == o.charge\n                    and self.basename == o.basename\n                )\n                or self.name == o.name\n            )\n            # return (self.is_electron and o.is_electron) or self.name == o.name\n        return NotImplemented\n', "new": '        if not isinstance(o, Species):\n            return NotImplemented\n        if self.is_electron and o.is_electron:\n            return True\n        if self.is_grain and o.is_grain:\n            if self.grain_group == o.grain_group and self.charge == o.charge:\n                return True\n        if self.is_surface and o.is_surface:\n            same_group = self.surface_group == o.surface_group\n            if same_group and self.charge == o.charge and self.basename == o.basename:\n                return True\n        return self.name == o.name\n'},
